@@ -114,7 +114,9 @@ Definition bstep (L sdb : bool) (hashes keys : list (list N)) (qk : list (list N
   match o with
   | BRestart =>
       let st' := (d, 0) in
-      let '(mq, dq) := check_queries L d c (b_lost s) hashes qk spec_on qs in
+      (* like every other operation: silent while a block with an empty / nil value is on the chain *)
+      let '(mq, dq) := check_queries L d c (b_lost s) hashes qk
+                                     (spec_on && nonempty_values c && hist_okb c) qs in
       mkbst st' c (b_lost s) (b_m s && (outcome =? 0)%N && mq) (b_spec s)
             (match b_div s with Some x => Some x | None => dq end)
   | BConnect height hi pi kvs =>
